@@ -14,6 +14,7 @@ from typing import Iterator
 import numpy as np
 
 from simkit import env
+from simkit.canon import attrs
 from simkit.core import EXC_NAMES, SIM_EXC, Outcome, Sim, SimCrash, Violation, make_exc
 from simkit.rng import Digest
 
@@ -28,7 +29,7 @@ VALUES = {
     "atol": [0.0, 1e-9, 1e-3, 0.5, -1.0, "A2"],  # A2: a per-column tolerance array (np.isclose broadcasts it)
     "rtol": [0.0, 1e-6, 0.1, -1.0],
     "alias": ["fl", "", "*", "fz"],
-    "logger": ["L0", "L1", "L2", "L3"],
+    "logger": ["L0", "L1", "L2", "L3", "L4"],
     "factory_manager": ["F0", "F1", "F2"],
 }
 DEFAULT = {"float_type": "float64", "decimals": 3, "atol": 1e-3, "rtol": 0.0, "alias": "fl",
@@ -97,6 +98,11 @@ def pool(code: str):
         l3.propagate = False
         l3.addHandler(_L3_HANDLER)
         _POOL["L3"] = l3
+        # L4 is a private logger: instantiated directly, not registered under its name in the logging module (a look-alike
+        # obtained with logging.getLogger("verif.L4") would be another object)
+        l4 = logging.Logger("verif.L4", level=logging.ERROR)
+        l4.propagate = False
+        _POOL["L4"] = l4
         _POOL["A2"] = np.array([1e-3, 1e-1])
         _POOL["F0"] = env.default_factory_manager()
         f1 = fl.FactoryManager()
@@ -279,14 +285,27 @@ class Interp:
             self.out.violation = Violation(oracle, self.k, **details)
         raise _Abort()
 
+    @staticmethod
+    def _setting(obj, key: str):
+        """The value of a setting as a user reads it (attribute access, however the tree under test stores it); the factory
+        manager through its private slot when there is one, because the public property creates the default lazily."""
+        if key == "factory_manager":
+            a = attrs(obj)
+            if "_factory_manager" in a:
+                return a["_factory_manager"]
+        return getattr(obj, key)
+
     def check(self, where: str) -> None:
-        v = vars(self.S)
         if self.target == "instance":
-            g = vars(fl.settings)
-            if any(g[k2] is not v2 and g[k2] != v2 for k2, v2 in env.DEFAULTS.items()) or g["_factory_manager"] is not env.default_factory_manager():
+            g = fl.settings
+            if any(self._setting(g, k2) is not v2 and self._setting(g, k2) != v2 for k2, v2 in env.DEFAULTS.items()) \
+                    or self._setting(g, "factory_manager") is not env.default_factory_manager():
                 self.fail("settings_mismatch", where=where, key="<global settings changed by a context on another Settings object>")
         for key in KEYS:
-            real = v["_factory_manager" if key == "factory_manager" else key]
+            try:
+                real = self._setting(self.S, key)
+            except AttributeError:
+                self.fail("settings_mismatch", where=where, key=key, found="<the setting cannot be read any more>")
             if key == "factory_manager" and self.model[key] == "NONE":
                 # not created yet, or created lazily meanwhile: anything but one of the managers a context installed
                 if real is not None and any(real is pool(c) for c in ("F1", "F2")):
@@ -299,9 +318,6 @@ class Interp:
             if not same:
                 self.fail("settings_mismatch", where=where, key=key, expected=repr(self.model[key]),
                           found=describe(key, real), ctx_depth=self.ctx_depth)
-        if not {"float_type", "decimals", "atol", "rtol", "alias", "logger", "_factory_manager"} <= set(v):
-            # a documented setting disappeared; further private attributes are the library's own business
-            self.fail("settings_mismatch", where=where, key="<attrs>", found=sorted(v))
 
     # ---- statements --------------------------------------------------------
     def block(self, stmts: list) -> str | None:
@@ -490,7 +506,12 @@ class Interp:
         sig = None
         try:
             try:
-                cm = self.S.context(**real)
+                if s.get("explicit_none"):
+                    # callers that forward a fixed argument list pass None for the settings they do not mean to name
+                    st.hit("probes.unnamed_settings_passed_as_none")
+                    cm = self.S.context(**{**{key: None for key in KEYS}, **real})
+                else:
+                    cm = self.S.context(**real)
                 if s.get("pre"):
                     # the context object is created now and entered later (contexts prepared up front, ExitStack):
                     # "previous value" means the value at *entry*
@@ -666,8 +687,10 @@ class Interp:
     def observe(self, what: str, m: dict):
         if what == "str":
             x = 1.0 / 3.0
-            return (fl.Op.str(x), fl.Op.str(np.float64(2.0 / 3.0))), (
-                f"{x:.{m['decimals']}f}", f"{2.0 / 3.0:.{m['decimals']}f}")
+            return (fl.Op.str(x), fl.Op.str(np.float64(2.0 / 3.0)), fl.Op.str(np.float32(0.5)), fl.Op.str(np.float16(0.25)),
+                    fl.Op.str(np.array([0.5], dtype=np.float32))), (
+                f"{x:.{m['decimals']}f}", f"{2.0 / 3.0:.{m['decimals']}f}", f"{0.5:.{m['decimals']}f}", f"{0.25:.{m['decimals']}f}",
+                f"{0.5:.{m['decimals']}f}")
         if what == "close":
             got, want = [], []
             for d in (1e-10, 1e-4, 0.05, 0.4):
@@ -860,7 +883,7 @@ class C20(Sim):
         "assign_named_key_rolled_back", "assign_unnamed_key_persists", "helper_created_under_other_settings_used_now",
         "context_inside_exception_handler", "context_inside_finally_while_exception_propagates", "own_settings_instance",
         "factory_manager_not_yet_created", "context_created_before_it_is_entered", "context_used_as_decorator", "decorated_function_calls_itself",
-        "warnings_escalated_to_errors", "context_entered_through_exitstack", "context_entered_through_manual", "overlapping_contexts_over_disjoint_settings",
+        "warnings_escalated_to_errors", "context_entered_through_exitstack", "context_entered_through_manual", "overlapping_contexts_over_disjoint_settings", "unnamed_settings_passed_as_none",
     ]
 
     # ---- generation --------------------------------------------------------
@@ -889,6 +912,10 @@ class C20(Sim):
                 if rr < 0.10:
                     node["pre"] = [{"k": "assign", "key": rng.choice(keys), "v": rng.choice(VALUES[rng.choice(keys)])}
                                    if False else self._pre_assign(rng, keys) for _ in range(rng.randint(1, 2))]
+                elif rr < 0.44 and rr >= 0.32:
+                    node["explicit_none"] = True
+                if rr < 0.10:
+                    pass
                 elif rr < 0.27:
                     # the same context entered through contextlib.ExitStack, or by calling __enter__ / __exit__ by hand
                     node["how"] = "exitstack" if rr < 0.21 else "manual"
